@@ -167,6 +167,59 @@ def u_body_key(ip):
     c.oblige("carried_model_states_unchanged", out["model_state_train"].eq(z3.Const("ms_t", U)) and out["model_state_validation"].eq(z3.Const("ms_v", U)))
 
 
+@unit("C20.body_fun.every_batch_used", "C20", [f"{OPT}::optim_flat.<locals>.body_fun", f"{OPT}::optim_flat.<locals>.body_fun.<locals>._fori_body"], float_mode="real",
+      summaries=[f"{OPT}::_generate_batch_indices (C20.generate_batch_indices: the leading full batches of one permutation)"],
+      assumptions=["three batches per iteration in this unit (the loop bound is len(batches): uniform in the count)", "A: lax.fori_loop(lower, upper, body, init) applies body for i = lower .. upper - 1 in order"])
+def u_body_batches(ip):
+    """within one iteration EVERY batch of the draw is used exactly once, in order: gradient step j is taken on batch j, at the position the
+    previous step produced and with the carried training state; the optimiser state is threaded; the losses recorded afterwards are those
+    of the position after the last batch - so every observation that is in some batch influences the fit."""
+    c = ip.ctx
+    clo = ip.repo(f"{OPT}::optim_flat.<locals>.body_fun")
+    env = body_env(ip)
+    grads = []
+    env.vars["neg_log_prob_grad"] = PyFn(lambda ip_, pos, batch_indices=None, model_state=None: (grads.append((pos, batch_indices, model_state)), ip_.uf("grad", ip_.to_U(pos), ip_.to_U(batch_indices)))[1], "neg_log_prob_grad")
+    clo.env = env
+    batches = [z3.Const(f"batch{j}", U) for j in range(3)]
+    ip.summaries[f"{OPT}::_generate_batch_indices"] = lambda ip_, args, kwargs: list(batches)
+    calls = []
+
+    def fori(ip_, body_fun=None, init_val=None, lower=None, upper=None, **kw):
+        calls.append((lower, upper))
+        v = init_val
+        for i in range(ip_.conc_int(lower), ip_.conc_int(upper)):
+            v = ip_.call(body_fun, [i, v], {})
+        return v
+
+    ip.models["jax.lax.fori_loop"] = fori
+    ip.models["optax.apply_updates"] = lambda ip_, params, updates: ip_.uf("apply_updates", ip_.to_U(params), ip_.to_U(updates))
+    ip.models["jax.tree.map"] = lambda ip_, f, *trees: ip_.uf("tree_map", *[ip_.to_U(t) for t in trees])
+    ip.models["jax.tree_util.tree_map"] = ip.models["jax.tree.map"]
+    ip.models["jax.debug.callback"] = lambda ip_, *a, **k: None
+    hist = {"loss_train": z3.Const("h_train", U), "loss_validation": z3.Const("h_val", U), "position": z3.Const("h_pos", U)}
+    pos0, opt0, ms_t = z3.Const("pos", U), z3.Const("opt", U), z3.Const("ms_t", U)
+    val = {"while_i": c.fresh("while_i", Int), "history": hist, "position": pos0, "opt_state": opt0, "key": z3.Const("key", U), "model_state_train": ms_t, "model_state_validation": z3.Const("ms_v", U)}
+    got_losses = {}
+    env.vars["_neg_log_prob_train"] = PyFn(lambda ip_, pos, model_state=None: (got_losses.__setitem__("train", (pos, model_state)), ip_.uf("loss_train", ip_.to_U(pos)))[1], "_neg_log_prob_train")
+    env.vars["_neg_log_prob_validation"] = PyFn(lambda ip_, pos, model_state=None: (got_losses.__setitem__("val", (pos, model_state)), ip_.uf("loss_val", ip_.to_U(pos)))[1], "_neg_log_prob_validation")
+    out = ip.call(clo, [val], {})
+    c.oblige("loop_runs_over_all_batches", calls == [(0, 3)] or (len(calls) == 1 and ip.conc_int(calls[0][0]) == 0 and ip.conc_int(calls[0][1]) == 3))
+    c.oblige("one_gradient_step_per_batch", len(grads) == 3)
+    if len(grads) == 3:
+        c.oblige("step_j_uses_batch_j", all(is_z3(grads[j][1]) and grads[j][1].eq(batches[j]) for j in range(3)))
+        c.oblige("steps_use_the_carried_training_state", all(is_z3(g[2]) and g[2].eq(ms_t) for g in grads))
+        pos, opt = pos0, opt0
+        ok = True
+        for j in range(3):
+            ok = ok and ip.to_U(grads[j][0]).eq(ip.to_U(pos))
+            g = ip.uf("grad", ip.to_U(pos), batches[j])
+            upd, opt = ip.uf("opt_updates", g, ip.to_U(opt), ip.to_U(pos)), ip.uf("opt_state", g, ip.to_U(opt), ip.to_U(pos))
+            pos = ip.uf("apply_updates", ip.to_U(pos), upd)
+        c.oblige("each_step_starts_where_the_previous_ended", ok)
+        c.oblige("final_position_and_optimiser_state_are_those_after_the_last_batch", ip.to_U(out["position"]).eq(ip.to_U(pos)) and ip.to_U(out["opt_state"]).eq(ip.to_U(opt)))
+        c.oblige("losses_recorded_at_the_final_position", all(k_ in got_losses and ip.to_U(got_losses[k_][0]).eq(ip.to_U(pos)) for k_ in ("train", "val")))
+
+
 # --------------------------------------------------------------------------------------------
 # tail of optim_flat: restore best position, NaN padding, pruning, result wiring
 
